@@ -40,7 +40,7 @@ def make_cases(rng, tier, n):
             # the upstream stage is re-run and committed ON ITS OWN, its source changes again, then the downstream stage is
             # requested first: it must still wait for the stage that owns its input
             j, i = rng.choice(fwd)
-            srcs = [p for p, fl in c["stages"][j][1].get("in", []) if p.startswith(b"src/")]
+            srcs = [p for p, fl in c["stages"][j][1].get("in", []) if p.startswith(b"src/") or b"_cfg/" in p]
             if srcs:
                 ops += [("commit", rng.choice("lc"), []),
                         ("write", srcs[0], "g:%d:9" % rng.randrange(5000, 6000)), ("run", False, [names[j]]), ("commit", rng.choice("lc"), [names[j]]),
